@@ -305,3 +305,8 @@ def run(ctx, eng):
            'FlowControlError.error_code is FLOW_CONTROL_ERROR')
     ctx.assume('hyperframe parses the SETTINGS payload into plain int '
                'identifiers and values')
+    cm.include(ctx, eng, 'C18', {'ORD.terminate', 'FLOW.goaway'},
+               'the code the exception carries is the code of the GOAWAY: '
+               'the handler that terminates the connection passes '
+               'e.error_code on, and no broader handler intercepts the '
+               'exception before it')
